@@ -9,7 +9,7 @@ META = {
     "engine": "FilesFS",
     "technique": "TLA+ state machine of the io/fs contract for one handle (Open/Stat/Read(n)/ReadDir(n)/Close over a tree derived from valid, non-conflicting names) plus an implementation-shaped transcription of files.go; TLC explores every tree x probe name x operation to a fix-point, exports every tree x name x operation sequence as a case; the real scriggo.Files is driven through every case and each logged result is judged by a TLC trace spec that replays the sequence through the reference machine",
     "level": "model_checking",
-    "level_text": "The contract (fs.FS, fs.ValidPath, fs.File, fs.ReadDirFile, fs.DirEntry, io.Reader and the property's 'sorted, each child once with the right mode, paginate correctly') is a relation between handle state and logged result (FilesFS.tla, part I). TLC checks for every tree of <=3 (quick) / <=4 (thorough) files over 6 / 8 names, every probe name (files, implied directories, '.', missing and invalid names) and every operation, to a fix-point of the handle state, that the contract is satisfiable and that pages concatenate to the sorted listing with each child once; it checks the transcription of files.go (as written, and with the proposed repair) against the same relation; and it exports every operation sequence of length <=3 / <=4 as a case. Every case is executed on the real Files and every logged result is judged by the reference relation in TLC.",
+    "level_text": "The contract (fs.FS, fs.ValidPath, fs.File, fs.ReadDirFile, fs.DirEntry, io.Reader and the property's 'sorted, each child once with the right mode, paginate correctly') is a relation between handle state and logged result (FilesFS.tla, part I). TLC checks for every tree of <=3 (quick) / <=4 (thorough) files over 6 / 7 names, every probe name (files, implied directories, '.', missing and invalid names) and every operation, to a fix-point of the handle state, that the contract is satisfiable and that pages concatenate to the sorted listing with each child once; it checks the transcription of files.go (as written, and with the proposed repair) against the same relation; and it exports the operation sequences (all of length <=2 over the full alphabet, <=3 / <=4 over the state-changing operations, <=3 / <=5 over the paging operations; maximal ones only, shorter ones are their prefixes) for every tree and name as cases. Every case is executed on the real Files and every logged result is judged by the reference relation in TLC.",
     "level_note": "Trusted: TLC, the Json module, the Go driver that builds the map, calls Open/Stat/Read/ReadDir/Close/DirEntry methods under recover() and logs (no expected values in Go or Python). Not judged (io/fs does not specify them): results after Close, Read on a directory handle, permission bits, ModTime, the *PathError wrapper ('should'), size of directories. Maps with invalid or conflicting names are outside the property (skipped as ref_undefined). testing/fstest.TestFS is consulted only for confirmed violations (oracle guard).",
     "design_ref": "7/C23",
 }
@@ -226,12 +226,12 @@ def run(ctx, replay_case=None):
         bg["fixed"] = pool.submit(mc, ctx, "fixed", consts, True)
         bg["as_written"] = pool.submit(mc, ctx, "as_written", consts, False)
         ctx.cov.update(states=r.distinct, transitions=r.generated, mc_wall_s=round(r.wall, 1), mc_invariants=MC_INVS,
-                       bounds=str(consts) + "; MC: handle state explored to a fix-point (operation sequences of any length); replay: all sequences of <= FullOps operations, <= MaxOps state-changing operations (ReadDir(-1|1|2)/Read(1|2)/Close), <= DeepOps paging operations")
+                       bounds=str(consts) + "; MC: handle state explored to a fix-point (operation sequences of any length); replay: the maximal sequences among all sequences of <= FullOps operations, <= MaxOps state-changing operations (ReadDir(-1|1|2)/Read(1|2)/Close), <= DeepOps paging operations (every shorter sequence is a prefix of one of them)")
         cases = wd / "cases.ndjson"
         if not cases.exists():
             raise Infra("MC_FilesFS exported no cases.ndjson")
         # 2. replay into the real code
-        ctx.drive("c23", cases, obs, args=["-extra", str(ctx.pick(2000, 40000))])
+        ctx.drive("c23", cases, obs, args=["-extra", str(ctx.pick(2000, 20000))])
     # 3. judge (sharded, parallel TLC processes); python only counts and splits lines
     lines = obs.read_text().splitlines(keepends=True)
     n = len(lines)
